@@ -2,6 +2,7 @@ package main
 
 import (
 	"fmt"
+	"go/types"
 
 	"golang.org/x/tools/go/ssa"
 )
@@ -50,6 +51,63 @@ func ruleBootstrapTxn(c *Ctx) {
 		}
 	}
 	c.Check(nFromReq >= 2, rule, "store and region payload", "the first store and first region written come from this very request", P.pos(boot.Pos()), fmt.Sprintf("%d puts derive from the request", nFromReq))
+	// each record is filed under its own id and holds its own payload: the store key is made from the id of the
+	// request's store and written with that store, the region key from the id of the request's region
+	{
+		pbm := "github.com/pingcap/kvproto/pkg/"
+		getStore := F(P.Method(pbm+"pdpb", "BootstrapRequest", "GetStore"))
+		getRegion := F(P.Method(pbm+"pdpb", "BootstrapRequest", "GetRegion"))
+		for _, kind := range []struct {
+			what   string
+			mk     *ssa.Function
+			id     Callee
+			source Callee
+			other  Callee
+		}{
+			{"store", P.Func("server", "makeStoreKey"), F(P.Method(pbm+"metapb", "Store", "GetId")), getStore, getRegion},
+			{"region", P.Func("server", "makeRegionKey"), F(P.Method(pbm+"metapb", "Region", "GetId")), getRegion, getStore},
+		} {
+			nk := 0
+			for _, ci := range callsIn(boot, false, F(kind.mk)) {
+				a := callArgs(ci.Common())
+				if len(a) < 2 {
+					continue
+				}
+				nk++
+				okID := valueIsCallTo(a[1], kind.id) && derivesFrom(a[1], resultOfCall(kind.source), 6) && !derivesFrom(a[1], resultOfCall(kind.other), 6)
+				c.Check(okID, rule, "id in the first "+kind.what+"'s key in "+fnName(boot), "the "+kind.what+" record is filed under the id of the request's "+kind.what, P.instrPos(ci.(ssa.Instruction)), "the key is not made from "+kind.what+".GetId() of the request")
+			}
+			for _, st := range sites {
+				if !st.KeyAtoms.Funcs[kind.mk] || len(st.Op.Call.Args) < 2 {
+					continue
+				}
+				v := st.Op.Call.Args[1]
+				okVal := derivesFrom(v, resultOfCall(kind.source), 8) && !derivesFrom(v, resultOfCall(kind.other), 8)
+				c.Check(okVal, rule, "value under the first "+kind.what+"'s key in "+fnName(boot), "what is written under the "+kind.what+" key is the request's "+kind.what, P.instrPos(st.Op), "the value does not derive from the request's "+kind.what+" (or also from the other payload)")
+			}
+			if nk == 0 {
+				c.Undec(rule, "key of the first "+kind.what+" in "+fnName(boot), "made by "+kind.mk.Name(), P.pos(boot.Pos()), "no call found")
+			}
+		}
+		// the list of writes only grows: no re-slice drops a write that was already queued
+		truncated, where := false, P.pos(boot.Pos())
+		for _, b := range boot.Blocks {
+			for _, ins := range b.Instrs {
+				sl, ok := ins.(*ssa.Slice)
+				if !ok || (sl.Low == nil && sl.High == nil) {
+					continue
+				}
+				t, isSl := sl.Type().Underlying().(*types.Slice)
+				if !isSl {
+					continue
+				}
+				if nn := namedOf(t.Elem()); nn != nil && nn.Obj().Name() == "Op" && nn.Obj().Pkg() != nil && nn.Obj().Pkg().Path() == clientv3Path {
+					truncated, where = true, P.instrPos(sl)
+				}
+			}
+		}
+		c.Check(!truncated, rule, "list of bootstrap writes in "+fnName(boot), "the queued writes are only appended to (no re-slice with bounds drops one)", where, "a bounded re-slice of the []clientv3.Op list")
+	}
 	commit := sites[0].Commit
 	if commit == nil {
 		c.Undec(rule, "Commit", "found", "", "")
